@@ -42,7 +42,8 @@ static void tridiagonal_qr_step(Scalar *diag, Scalar *subdiag, Index start, Inde
     spec = FSpec("te_compute", "void", [("TE *", "T"), ("Index", "rows"), ("Index", "cols")],
                  pre=[("shape", "1 <= rows && rows <= NMAXS && 0 <= cols && cols <= NMAXS"), ("Skolem", "0 <= g_q && g_q <= NMAXS"),
                       ("fresh object (as constructed by the solvers for every decomposition)", "!T->m_computed")],
-                 post=[("normal exit marks the object computed", "T->m_computed && T->m_n == rows && VEC_SIZE(T->m_main_diag) == rows"),
+                 post=[("normal exit marks the object computed; n eigenvalues and an n x n eigenvector matrix (the shape the solvers rely on)",
+                        "T->m_computed && T->m_n == rows && VEC_SIZE(T->m_main_diag) == rows && T->m_evecs.rows == rows && T->m_evecs.cols == rows"),
                        ("normal exit only with T driven to diagonal form: every sub-diagonal entry is exactly zero (or the zero-matrix early exit was taken)",
                         "T->g_zero_exit || !(0 <= g_q && g_q < rows - 1) || T->m_sub_diag[g_q] == (Scalar)0")],
                  exc_post=[("non-square -> invalid_argument; iteration limit -> runtime_error", "(verif_exc == EXC_invalid_argument && rows != cols) || verif_exc == EXC_runtime_error"),
@@ -168,7 +169,8 @@ static Scalar FMULS(Scalar a, Scalar s)
     spec = FSpec("he_values", "void", [("HE *", "E")],
                  pre=[("real Schur form and workspace are n x n", "1 <= E->m_n && E->m_n <= NMAXS && E->m_matT.rows == E->m_n && E->m_matT.cols == E->m_n && VEC_SIZE(E->kind) == E->m_n"), ("Skolem", "0 <= g_q && g_q <= NMAXS")],
                  post=[("every eigenvalue is either real with an exactly zero imaginary part, or one of two ADJACENT EXACT conjugates with the non-negative imaginary part first",
-                        "PAIR_AT(E, g_q)")],
+                        "PAIR_AT(E, g_q)"),
+                       ("exactly n eigenvalues are stored", "__CPROVER_OBJECT_SIZE(E->m_eivalues) == E->m_n * sizeof(Complex)")],
                  frame=["E->m_eivalues"], frame_objs=["E->kind"], real=EH + ":compute (eigenvalue extraction + scaling)")
     # cut the eigenvalue loop and the scaling statement out of compute()
     body = f.body
